@@ -105,7 +105,7 @@ class Interp:
                 p = v.copy(deg=top_deg())
                 p.q = None
                 p.amap = None
-                p.mid, p.whole, p.view_of = v.mid, v.whole, v.view_of
+                p.mid, p.whole, p.view_of, p.rowview = v.mid, v.whole, v.view_of, v.rowview
                 p.clob = '%s overwritten through %s' % (k, name)
                 st.env[k] = p
                 self.events.append(('alias-write', node, name, k, False, fn))
